@@ -240,3 +240,29 @@ mod tests {
         }
     }
 }
+
+#[cfg(feature = "verif")]
+impl ConciseFreeResources {
+    /// Read-only view of the concise mirror for the simulation harness (feature `verif`).
+    pub(crate) fn verif_snapshot(
+        &self,
+    ) -> Vec<crate::internal::worker::resources::verif::ConciseSnapshot> {
+        self.resources
+            .iter()
+            .map(
+                |state| crate::internal::worker::resources::verif::ConciseSnapshot {
+                    groups: state
+                        .free
+                        .iter()
+                        .map(|g| {
+                            let mut f: Vec<(u32, u32)> =
+                                g.fractions.iter().map(|(i, f)| (i.as_num(), *f)).collect();
+                            f.sort();
+                            (g.units, f)
+                        })
+                        .collect(),
+                },
+            )
+            .collect()
+    }
+}
